@@ -576,3 +576,14 @@ MUTANTS['C05']['commit-although-body-raised'] = ([(FU, """        if exc_type:
             return
         try:
             atomic_rename""")], 'detect')
+
+MUTANTS['C05']['realpath-destination'] = ([(FU, "        self.dest_path = os.path.abspath(self.dest_path)", "        self.dest_path = os.path.realpath(self.dest_path)")], 'detect')
+MUTANTS['C05']['part-open-follows-symlinks'] = ([(FU, "_TEXT_OPENFLAGS = os.O_RDWR | os.O_CREAT | os.O_EXCL", "_TEXT_OPENFLAGS = os.O_RDWR | os.O_CREAT"),
+                                                  (FU, "if hasattr(os, 'O_NOFOLLOW'):\n    _TEXT_OPENFLAGS |= os.O_NOFOLLOW", "if False:\n    _TEXT_OPENFLAGS |= os.O_NOFOLLOW")], 'detect')
+MUTANTS['C05']['benign-replace-symlink-target'] = ([(FU, """        try:
+            atomic_rename(self.part_path, self.dest_path,
+                          overwrite=self.overwrite)""", """        try:
+            atomic_rename(self.part_path,
+                          os.path.realpath(self.dest_path) if self.overwrite else self.dest_path,
+                          overwrite=self.overwrite)""")], 'benign')
+MUTANTS['C04']['benign-replace-symlink-target'] = MUTANTS['C05']['benign-replace-symlink-target']
